@@ -28,6 +28,27 @@ def to_items(t) -> list:
     raise ValueError(k)
 
 
+def to_items_pred(t) -> list:
+    """Like to_items, but every atom is a FRESH predicate object (Identity(letter)): equal predicates, distinct objects -
+    what a caller writes who builds his pattern from predicates instead of plain items."""
+    from codelimit.common.gsm.predicate.Identity import Identity
+
+    k = t[0]
+    if k == "atom":
+        return [Identity(t[1])]
+    if k == "seq":
+        return to_items_pred(t[1]) + to_items_pred(t[2])
+    if k == "alt":
+        return [Union(to_items_pred(t[1]), to_items_pred(t[2]))]
+    if k == "opt":
+        return [Optional(to_items_pred(t[1]))]
+    if k == "star":
+        return [ZeroOrMore(to_items_pred(t[1]))]
+    if k == "plus":
+        return [OneOrMore(to_items_pred(t[1]))]
+    raise ValueError(k)
+
+
 _SHARED: dict = {}
 
 
